@@ -235,6 +235,28 @@ def r71(ctx, rep, fns):
             else:
                 # a pure renaming has the same alpha-shape
                 ref = [s for f2, t2, s2, _ in items if t2 == best for s in [s2]][0]
+                # hoisted loop invariants: names this sibling binds once, at function level, to an expression the
+                # majority writes in place (e.g. `rpadding = [missing] * len(rvind)`)
+                best_names = {x.id for st in ref for x in ast.walk(st) if isinstance(x, ast.Name)}
+                subst = {}
+                for f2 in _all_functions(fn):
+                    for st in f2.node.body:
+                        if isinstance(st, ast.Assign) and len(st.targets) == 1 and isinstance(st.targets[0], ast.Name) \
+                                and st.targets[0].id not in best_names:
+                            nm = st.targets[0].id
+                            if len(_assigned_value(fn, nm)) == 1:
+                                subst[nm] = st.value
+                if subst:
+                    class _S(ast.NodeTransformer):
+                        def visit_Name(self, node):
+                            if node.id in subst and isinstance(node.ctx, ast.Load):
+                                return copy.deepcopy(subst[node.id])
+                            return node
+                    texts2 = tuple(canon(ast.fix_missing_locations(_S().visit(copy.deepcopy(st)))) for st in stmts)
+                    if texts2 == best:
+                        rep.held('R7.1', fn, '%s row: %s' % (kind, ' ; '.join(texts))[:100],
+                                 'same recipe as %d siblings once hoisted invariants are written in place' % n, y)
+                        continue
                 if shape(stmts) == shape(ref):
                     rep.undecided('R7.1', fn, '%s row' % kind, 'differs from its siblings only by local names', y)
                 else:
